@@ -19,6 +19,27 @@ CHECKS = {
          "Trusted base: ops::Model written from the statement; payload equality by 64-bit hash.", "4/C05", "driver"),
 }
 
+CHECKS.update({
+ "C04": ("exploration", "runtime monitor: online trace-specification checker (per-incarnation high-water mark) over call arguments/results, with restart and crash-recovery branches",
+         "Every successful append of generated idle/GC-heavy histories is checked against a high-water mark kept from arguments and results only; every queue is probed after every restart and, at sampled call boundaries, in a side branch recovered from the process-crash image.",
+         "Crash branch assumes Always(Flush): directory content at a call boundary = process-crash image.", "4/C04", "driver+iotrace"),
+ "C06": ("exploration", "runtime monitor: directory listing + syscall-trace bookkeeping of the current file after every truncate/delete_queue/open",
+         "After each truncate/delete_queue/open the WAL files present must be a contiguous run ending at the file being written, none older than min(file current when the oldest retained record's append began, file current when the call began); disk_used_bytes must equal the summed sizes. The bound comes from the trace, not from the implementation's refcounts.",
+         "Exact under flush-per-call policies; lazy-policy histories only check contiguity and disk accounting.", "4/C06", "driver+iotrace"),
+ "C08": ("fault_enumeration", "runtime monitor: open() on in-place-damaged WAL images, recovered records checked for membership in the set of everything ever appended",
+         "Hundreds of damage sets per history (bit flips, garbage, zero-fill, block/multi-block garbage, stale chunk copies, aimed at crc/len/type/payload/block edges) are applied to the final image; on Ok every recovered record must be the (queue, position, payload) of some append and positions per queue strictly increase.",
+         "Payloads are self-identifying (PRNG stream keyed by op/index/len), compared by 64-bit hash; CRC-32 collisions are classified inconclusive only if a checksum-valid altered frame exists in the damaged image.", "4/C08", "driver+iotrace"),
+ "C09": ("fault_enumeration", "runtime monitor: every frame of the final WAL image x 4 payload/checksum alterations, retained records not written by the hit call must survive intact",
+         "Frames are attributed to API calls through the syscall trace (call windows under Always(Flush)); for each frame and alteration open() must succeed and every retained record whose writing call is not the damaged frame's call must be recovered byte for byte. Exhaustive over frames per history (sampled above a cap in quick).",
+         "Layout parser only aims the damage and self-validates per image; verdict comes from the read API.", "4/C09", "driver+iotrace"),
+ "C10": ("fault_enumeration", "runtime monitor: open() + all read accessors on hostile directory contents in forked sacrificial children under logical syscall budget, CPU limit and allocation cap; release and overflow-checking builds",
+         "Four generators (structural damage, in-place damage, CRC-valid crafted entries/frames, random blocks) x 100 images per base history; panic / abort / budget exhaustion / CPU limit / allocation cap are violations; two dev-profile-only overflow panics are listed as known findings.",
+         "Hang = 10x(blocks+files)+1000 traced calls or 20 s CPU; allocation cap 64 MiB + 8x image; wall-clock only yields inconclusive.", "4/C10", "driver+iotrace"),
+ "C11": ("fault_enumeration", "runtime monitor: exhaustive per-image injection of I/O errors (LD_PRELOAD shim) into every opendir/readdir/open/read call of recovery, in forked children with a logical call budget",
+         "For each image every n-th call of every class is failed once and from-then-on with 6 errnos; open() must return Err(IoError) within 10x the fault-free traced calls + 1000; Ok, Corruption, budget exhaustion and panics are violations.",
+         "Faults injected at the libc boundary (the real call is not made); EINTR excluded (std retries it).", "4/C11", "driver+iotrace"),
+})
+
 NOT_YET = {
 }
 
